@@ -577,6 +577,15 @@ func (am *AccountingManager) pendingRecordProcessor() {
 
 // processPendingRecord attempts to send a pending record
 func (am *AccountingManager) processPendingRecord(record *PendingAcctRecord) {
+	// A record is reachable both through the channel and through the retry
+	// ticker: skip it if the other path already delivered (or abandoned) it
+	am.pendingMu.RLock()
+	_, stillPending := am.pendingRecords[record.ID]
+	am.pendingMu.RUnlock()
+	if !stillPending {
+		return
+	}
+
 	ctx, cancel := context.WithTimeout(am.ctx, 5*time.Second)
 	defer cancel()
 
